@@ -27,7 +27,7 @@ META = {
     'rule': ('every concrete data-type / container class; traces of construct, parse-with-optional-parts-absent, '
              'parse-generated-instance, deepcopy, nested set (value drawn from the member\'s own strategy), list append; '
              'non-trivial = a parse followed by a write at nesting depth >= 2 or a list append; distinct by trace'),
-    'assumptions': ['mk_copy() results are excluded from the independence oracle (shallow copy semantics belong to C03)'],
+    'assumptions': ['the lxml extension elements that mk_copy() shares between original and copy are exempt from the identity oracle'],
 }
 
 _PRISTINE = {}
@@ -85,6 +85,21 @@ def _walk_value(v, acc, label, depth, obj_types):
     elif isinstance(v, etree._Element):  # noqa: SLF001
         acc[id(v)] = label
     # enums, Decimals, QNames, frozen dataclasses: immutable
+
+
+def _element_ids(obj, acc=None, depth=0):
+    """ids of the lxml elements reachable through the property tree."""
+    acc = acc if acc is not None else set()
+    if depth > 6 or not hasattr(obj, 'sorted_container_properties'):
+        return acc
+    for _name, prop in obj.sorted_container_properties():
+        v = prop.get_actual_value(obj)
+        for item in (v if isinstance(v, list) else [v]):
+            if isinstance(item, etree._Element):  # noqa: SLF001
+                acc.add(id(item))
+            elif hasattr(item, 'sorted_container_properties'):
+                _element_ids(item, acc, depth + 1)
+    return acc
 
 
 def _default_ids():
@@ -145,6 +160,8 @@ class Runner:
         self.baseline = C.canon(T.new_instance(cls))
         self.findings = []
         self.had_parse = False
+        self.had_mk_copy = False
+        self.allowed_shared = set()
         self.nontrivial = False
 
     def add(self, inst, family=None):
@@ -164,7 +181,7 @@ class Runner:
         for idx, (inst, fam) in enumerate(self.instances):
             ids = _mutable_ids(inst)
             for oid, label in ids.items():
-                if oid in seen and fam_seen.get(oid) != fam:
+                if oid in seen and fam_seen.get(oid) != fam and oid not in self.allowed_shared:
                     self.findings.append((f'{P}/shared-object/{label.split("[")[0]}',
                                           f'after {op}: object at {label} of instance {idx} is also reachable from '
                                           f'{owners[oid]} ({seen[oid]})'))
@@ -210,6 +227,17 @@ class Runner:
                     return  # lxml QName members cannot be deep-copied (python limitation, not a sharing question)
                 self.add(dup)
                 self.check('deepcopy')
+        elif kind == 'mk_copy':
+            cands = [x for x in self.instances if hasattr(x[0], 'mk_copy')]
+            if cands:
+                src = cands[op[1] % len(cands)][0]
+                dup = src.mk_copy()
+                # mk_copy hands the (lxml) extension elements of the original to the copy: the elements are treated as
+                # immutable values by the library, everything else must be the copy's own
+                self.allowed_shared.update(_element_ids(src))
+                self.add(dup)
+                self.had_mk_copy = True
+                self.check('mk_copy')
         elif kind in ('set', 'append'):
             if not self.instances:
                 return
@@ -260,13 +288,14 @@ def drive(cls, data, max_ops):
     trace = []
     n = data.draw(st.integers(2, max_ops))
     for _ in range(n):
-        choice = data.draw(st.sampled_from(['construct', 'parse_min', 'parse', 'deepcopy', 'set', 'set', 'set', 'append']))
+        choice = data.draw(st.sampled_from(['construct', 'parse_min', 'parse', 'deepcopy', 'mk_copy', 'set', 'set', 'set',
+                                            'append']))
         if choice == 'construct' or choice == 'parse_min':
             op = [choice]
         elif choice == 'parse':
             op = ['parse', data.draw(T.instance_spec(cls))]
-        elif choice == 'deepcopy':
-            op = ['deepcopy', data.draw(st.integers(0, 5))]
+        elif choice in ('deepcopy', 'mk_copy'):
+            op = [choice, data.draw(st.integers(0, 5))]
         else:
             if not r.instances:
                 op = ['parse_min']
